@@ -802,7 +802,8 @@ def run_impl(case):
                         own = "at-own-step" if OWN_STEP.get(k[0]) and step in OWN_STEP[k[0]] else "after-later-step"
                         sig = "C18/retry-loses-changes/%s/%s/%s" % (mclass, k[0], own)
                         if mclass == "inplace" and k[0] == "layers":
-                            sig += how + narrow
+                            # (with layer actions pending the kind of loss is not told apart, as before round 3)
+                            sig += narrow if inp["pending"] else how + narrow
                     if sig in seen:
                         continue
                     seen.add(sig)
@@ -830,7 +831,8 @@ def run_impl(case):
                 verdict = [Atom("raises")]
                 viol.append(dict(rec, clause="C18/retry-raises",
                                  signature="C18/retry-raises/%s/%s%s" % (
-                                     mclass, type(e).__name__, ("/" + _reason(e) + narrow) if mclass == "inplace" else ""),
+                                     mclass, type(e).__name__,
+                                     "" if mclass != "inplace" else (narrow if inp["pending"] else "/" + _reason(e) + narrow)),
                                  error=str(e)[:200]))
             if cf is None and step_index in in_layer:
                 observed_retry[(in_layer[step_index][0], "env", in_layer[step_index][1])] = verdict
